@@ -265,6 +265,18 @@ class Interp(object):
                     return fn(v)
                 return ser
             S = {k: flaky(fn) for k, fn in S.items()}
+        # what the model expects is computed from the declarations, with the plain serializer
+        # functions -- never read back from eliot's own (private) objects
+        class _Ser(object):
+            def __init__(self, fn):
+                self.serialize = fn
+        self.type_specs = {}
+        for name, t in sorted(types.items()):
+            if t["kind"] == "action":
+                self.type_specs[name] = {"start": {k: _Ser(SERIALIZERS[x]) for k, x in t["start"]},
+                                         "succ": {k: _Ser(SERIALIZERS[x]) for k, x in t["succ"]}}
+            else:
+                self.type_specs[name] = {"fields": {k: _Ser(SERIALIZERS[x]) for k, x in t["fields"]}}
         for name, t in sorted(types.items()):
             if t["kind"] == "action":
                 sf = [e.Field(k, S[s], "") for k, s in t["start"]]
@@ -399,8 +411,7 @@ class Interp(object):
         expected = dict(fields)
         actor = self.rc.actor_name()
         if api == "typed" and not faulty:
-            t = self.types[mtype]
-            for key, f in t._serializer.fields.items():
+            for key, f in self.type_specs[mtype]["fields"].items():
                 if key in expected and key != "message_type":
                     expected[key] = f.serialize(expected[key])
         node = MMsg(nid, mtype, expected, actor)
@@ -651,13 +662,12 @@ class Interp(object):
         expected_start = dict(start)
         ser_succ = None
         if api in ("typed", "typed_task"):
-            t = self.types[atype]
-            for key, f in t._serializers.start.fields.items():
+            for key, f in self.type_specs[atype]["start"].items():
                 if faulty:
                     break
                 if key in expected_start and key not in ("action_type", "action_status"):
                     expected_start[key] = f.serialize(expected_start[key])
-            ser_succ = {key: f for key, f in t._serializers.success.fields.items()
+            ser_succ = {key: f for key, f in self.type_specs[atype]["succ"].items()
                         if key not in ("action_type", "action_status")}
         node = MAction(nid, atype, expected_start, rc.actor_name())
         node.ser_succ = ser_succ
